@@ -1,4 +1,5 @@
 import ZvbiModel.Enh.Lemmas
+import ZvbiModel.Props.C01Ttx
 /-!
 # C01 - the service decoder survives every input: proved safety obligations
 
@@ -36,5 +37,15 @@ def cyclic : Objects := fun _ => [.invoke 0x11 0, .invoke 0x12 0, .invoke 0x13 0
 example : depth cyclic 10 0 (cyclic 0) = 4 := by simp [depth, cyclic, skipInvocation, typeMask]
 example : (enhance cyclic 4 0 (cyclic 0)).isSome = true := by simp [enhance, cyclic, skipInvocation, typeMask]
 example : enhance cyclic 3 0 (cyclic 0) = none := by simp [enhance, cyclic, skipInvocation, typeMask]
+
+/-- **Teletext decoder: no out-of-range index and no failing assertion, for every packet history, on the
+current tree.**  `Ttx.run` marks every array access outside its (generated) extent and every
+`cache_network_page_stat` assertion as `Aux.fault site`; this is `C01Ttx.no_fault_reachable` with its
+hypothesis discharged by the flag that `translate/gen_ttx.py` reads from packet.c (the proof is `rfl` on that
+flag, so it stops building when the last-PTU repair F58 - or, through the per-site lemmas, F18 / F22 / F23 or an
+array extent - is lost). -/
+theorem teletext_no_fault_reachable (on : Bool) (ps : List Zvbi.Ttx.Packet) (site : String) :
+    Zvbi.Ttx.Event.aux (Zvbi.Ttx.Aux.fault site) ∉ (Zvbi.Ttx.run (Zvbi.Ttx.init.enable on) ps).2 :=
+  Zvbi.Props.C01Ttx.no_fault_reachable rfl on ps site
 
 end Zvbi.Props.C01
